@@ -75,6 +75,18 @@ func run(c *vf.Ctx) {
 			xm.Run()
 			xm.Report(n + "/merged/")
 		}
+		if sp.Require > 3 {
+			// a v1 contract formed, revised and / or proven inside ONE block (created AND resolved by the same block), and
+			// its later life; reorg round trips as above
+			mi := *m
+			mi.Name, mi.Menu, mi.D, mi.K, mi.R, mi.H = "v1inblock", chain.V1InBlockMenu, 3, 1, 1, 7
+			if sp.Name == "mixed" {
+				mi.H += 3
+			}
+			xi := chain.NewExplorer(c, &mi, "C06")
+			xi.Run()
+			xi.Report(n + "/v1inblock/")
+		}
 		x := chain.NewExplorer(c, m, "C06")
 		x.Run()
 		x.Report(n + "/")
